@@ -15,6 +15,7 @@ def build(scn, r):
     if scn.get("shuffle"):
         r.shuffle(hits)
         r.shuffle(holds)
+        bpms = bpms[1:] + bpms[:1]      # tempo rows stored out of time order
     m = new_map("bms", {"hits": hits, "holds": holds, "bpms": bpms})
     m.title, m.artist, m.version = b"Title", b"Artist", b"7"
     m.ln_end_channel = b"ZZ"
